@@ -179,7 +179,7 @@ class PathResult:
         self.describe = describe            # callable(model) -> jsonable description of a witness input
 
 
-def explore(harness, root_prefix=(), max_paths=200000, seed_only=None):
+def explore(harness, root_prefix=(), max_paths=200000, seed_only=None, deadline=None):
     """Run harness over all paths below root_prefix.
 
     harness.run(ctx) -> PathResult.  harness.concretize(model, path_result) -> jsonable dict (request for the
@@ -195,6 +195,9 @@ def explore(harness, root_prefix=(), max_paths=200000, seed_only=None):
     while work:
         if seed_only is not None and st["paths"] >= seed_only:
             st["leftover"] = work
+            break
+        if deadline is not None and time.time() > deadline:
+            st["engine_errors"].append(f"time budget exceeded with {len(work)} prefixes unexplored")
             break
         if st["paths"] >= max_paths:
             st["engine_errors"].append(f"path cap {max_paths} reached with {len(work)} prefixes unexplored")
